@@ -303,8 +303,7 @@ open Stab.Gen.TxnShapes Stab.TxnShapes in
     its mark raises — the `commitRaise` outcome of the model is reachable in the real handlers -/
 theorem pushes_outside_transactions :
     ((entries.filter (fun e => e.kind == "push_outside")).map key) =
-    [ ("handlers/add_multi_instance.py", "AddMultiInstanceHandler._handle_with_retry.on_stage", 1),
-      ("handlers/base.py", "StabilizeHandler.start_next", 0),
+    [ ("handlers/base.py", "StabilizeHandler.start_next", 0),
       ("handlers/base.py", "StabilizeHandler.start_next", 2),
       ("handlers/base.py", "StabilizeHandler.start_next", 3),
       ("handlers/complete_workflow.py", "CompleteWorkflowHandler._determine_final_status", 0),
